@@ -288,7 +288,8 @@ func (v *SemVer) String() string {
 func (v *SemVer) ToKey(b *bytes.Buffer) {
 	b.WriteByte(1)
 	b.WriteByte(HkVersion)
-	appendKeyBytes(b, v.Version().String())
+	// String, unlike Version, copes with the absent version of a TypeSet that is not yet initialized
+	appendKeyBytes(b, v.String())
 }
 
 func (v *SemVer) ToString(b io.Writer, s px.FormatContext, g px.RDetect) {
